@@ -159,18 +159,25 @@ def mon_c05(script, res):
             break
     # count events by position: we only know boundaries, so use the SupervisorStoppingEvent as the marker
     stopping_seen = False
-    n = len(script['procs'])
-    cur = [0] * n
     gprio = [g['priority'] for g in script['groups']]
-    active = [bool(g.get('initial', 1)) for g in script['groups']]
+    # every managed process, listener pools included: (group key, group priority)
+    pinfo = [(('g', c['group']), gprio[c['group']]) for c in script['procs']]
+    for k, pl in enumerate(script.get('pools', [])):
+        pinfo += [(('pool', k), pl.get('priority', 1))] * pl.get('procs', 1)
+    n = len(pinfo)
+    cur = [0] * n
+    active = dict((('g', g), bool(gc.get('initial', 1))) for g, gc in enumerate(script['groups']))
+    for k in range(len(script.get('pools', []))):
+        active[('pool', k)] = True
     in_rpc = False
+    pending_add = None
     for e in res['trace']:
         if e[0] == 'req':
             in_rpc = True
-            if e[2] == 'addgroup' and 0 <= e[3] < len(active):
-                pending_add = e[3]
+            if e[2] == 'addgroup' and ('g', e[3]) in active:
+                pending_add = ('g', e[3])
         if e[0] == 'ans' and in_rpc:
-            if 'pending_add' in dir() and pending_add is not None and e[2] == 0:
+            if pending_add is not None and e[2] == 0:
                 active[pending_add] = True
             pending_add = None
         if e[0] == 'endacts':
@@ -185,12 +192,12 @@ def mon_c05(script, res):
             if stopping_seen and e[3] == 40:
                 # a process is told to stop during shutdown: every group that comes before its group in the
                 # stopping order (strictly higher priority number) must be entirely in stopped states
-                gi = script['procs'][i]['group']
+                gi, pi = pinfo[i]
                 for j in range(n):
-                    gj = script['procs'][j]['group']
-                    if gprio[gj] > gprio[gi] and active[gj] and cur[j] not in (0, 100, 200, 1000):
-                        return ('p%d (group priority %s) was sent into STOPPING while p%d of a group with priority %s, which '
-                                'must be stopped first, was still in state %s' % (i, gprio[gi], j, gprio[gj], cur[j]))
+                    gj, pj = pinfo[j]
+                    if pj > pi and active[gj] and cur[j] not in (0, 100, 200, 1000):
+                        return ('process %d (group %s, priority %s) was sent into STOPPING while process %d of group %s with '
+                                'priority %s, which must be stopped first, was still in state %s' % (i, gi, pi, j, gj, pj, cur[j]))
             cur[i] = e[3]
     if nsup2 > 1:
         return 'SUPERVISOR_STATE_CHANGE_STOPPING announced %d times' % nsup2
@@ -198,7 +205,6 @@ def mon_c05(script, res):
         if nsup2 != 1:
             return 'main loop exited without announcing STOPPING exactly once'
         # at exit every process must be in a stopped state: replay notifications
-        n = len(script['procs'])
         cur = [0] * n
         for e in res['trace']:
             if e[0] == 'state' and 0 <= e[1] < n:
@@ -792,7 +798,13 @@ def dynamic_script(rng, U=2):
     for k in range(14):
         t += rng.choice([1, 2, 3])
         ops.append({'now': t, 'acts': [], 'killq': [1, 1] if rng.random() < 0.4 else []})
-    return {'U': U, 'procs': confs, 'groups': groups, 'ops': ops}
+    s = {'U': U, 'procs': confs, 'groups': groups, 'ops': ops}
+    if rng.random() < 0.5:
+        # event-listener pools take part in the shutdown order like any other group
+        s['pools'] = [{'events': rng.choice([['EVENT'], ['PROCESS_STATE'], ['SUPERVISOR_STATE_CHANGE', 'TICK_5']]),
+                       'buffer': rng.choice([1, 10]), 'procs': rng.choice([1, 2]), 'priority': rng.choice([1, 3, 4, 5, 8, 9, 999])}
+                      for _ in range(rng.choice([1, 1, 2]))]
+    return s
 
 
 def dynamic_stream(chk):
